@@ -13,7 +13,8 @@ THEOREMS = [
     "C06_rule_equiv_NoFragmentCycles", "C06_rule_equiv_NoUnusedFragments_joint",
     "C06_rule_equiv_NoUndefinedVariables", "C06_rule_equiv_NoUnusedVariables",
     "C06_rule_equiv_KnownFragmentNames", "C06_rule_equiv_LoneAnonymousOperation",
-    "C06_perm_definitions_partial", "C06_close_reachability",
+    "C06_rule_equiv_UniqueFragmentNames", "C06_rule_equiv_ValuesOfCorrectType_position",
+    "C06_perm_definitions_partial", "C06_perm_selections_arguments_partial", "C06_close_reachability",
 ]
 AXIOMS_OK = []
 RUN_MODULE = "Run.C06run"
